@@ -25,10 +25,10 @@ Print Assumptions error_dispatch_unambiguous_names.
    GoaErrorName is the declared name and its Go type is the declared type; the
    response mapping is well formed and is not Body("attribute"); header-carried values
    are wire safe. *)
-Theorem declared_error_roundtrip_partial hw te tbl d e vf nm :
+Theorem declared_error_roundtrip_partial hw te tbl d e vf :
   NoDup (map ename tbl) -> In d tbl ->
   as_namer te e = Some (ename d) ->
-  typed_value te d e = Some (vf, nm) ->
+  typed_value te d e = Some (vf, ename d) ->
   well_mapped d vf -> wire_safe_err hw d vf ->
   exists evs, encode_error te tbl e = Some evs /\
     let w := run_writer hw evs in
@@ -39,7 +39,7 @@ Theorem declared_error_roundtrip_partial hw te tbl d e vf nm :
     | KCustom ty => exists fs, decode_error te tbl w = CCustom (ename d) fs /\
                                forall k, lookup k fs = lookup k vf
     end.
-Proof. exact (roundtrip hw te tbl d e vf nm). Qed.
+Proof. exact (roundtrip hw te tbl d e vf). Qed.
 Print Assumptions declared_error_roundtrip_partial.
 
 (* --- the full statement (without the hypotheses above) is false of the faithful model;
@@ -152,13 +152,77 @@ Theorem http_status_total c : In (http_status c) [400; 408; 415; 500; 503; 504].
 Proof. exact (http_status_range c). Qed.
 Print Assumptions http_status_total.
 
-(* errors.As looks through wrappers: a wrapped goa error (declared, or a service error)
-   produces exactly the response of the error inside; the wrapper text is dropped. *)
-Theorem wrapped_declared_is_dispatched te tbl w e :
-  (as_service e <> None \/ exists n d, as_namer te e = Some n /\ find_decl n tbl = Some d) ->
-  encode_error te tbl (EWrap w e) = encode_error te tbl e.
-Proof. exact (wrapped_same te tbl w e). Qed.
+(* errors.As is a depth-first search over the cause tree (Unwrap() error and
+   Unwrap() []error): a goa error below ANY tree of fmt.Errorf %w wrappers, errors.Join
+   and multi-%w wrappers whose other branches hold no goa error produces exactly the
+   response of the error itself, provided it is declared or is a service error; the
+   wrappers' text is dropped. *)
+Theorem wrapped_declared_is_dispatched te tbl g t :
+  wraps g t ->
+  (as_service g <> None \/ exists n d, as_namer te g = Some n /\ find_decl n tbl = Some d) ->
+  encode_error te tbl t = encode_error te tbl g.
+Proof. exact (wrapped_same te tbl g t). Qed.
 Print Assumptions wrapped_declared_is_dispatched.
+
+(* in particular an UNDECLARED service error inside any such tree keeps its own status
+   (flag table), name, id, message and flags *)
+Theorem wrapped_undeclared_service_error_status hw te tbl c t :
+  wraps (EService c) t -> find_decl (cname c) tbl = None ->
+  encode_error te tbl t = Some (default_events t) /\
+  run_writer hw (default_events t) = mkws true (http_status c) [] [] (WObj (core_fields c)) 1.
+Proof. exact (wrapped_undeclared_service hw te tbl c t). Qed.
+Print Assumptions wrapped_undeclared_service_error_status.
+
+(* the facts about errors.As behind both: every wrapper tree is transparent *)
+Theorem errors_as_sees_through_wrappers te g t :
+  wraps g t ->
+  as_namer te t = as_namer te g /\ as_service t = as_service g /\ forall ty, as_custom ty t = as_custom ty g.
+Proof. exact (wraps_as te g t). Qed.
+Print Assumptions errors_as_sees_through_wrappers.
+
+(* ---- where the table comes from: the same error name declared and mapped at method,
+        service and API level.  A row exists iff the method can return the error (declared
+        by the method or its service) and some level maps it; the response is the
+        method's mapping, else the service's, else the API's. *)
+Theorem inheritance_spec lv n st k :
+  In (n, st, k) (effective_error_table lv) <->
+  (In n (map fst (m_decl lv)) \/ In n (map fst (s_decl lv))) /\ pick lv n = Some (st, Some k).
+Proof. exact (effective_table_spec lv n st k). Qed.
+Print Assumptions inheritance_spec.
+
+Theorem method_mapping_overrides lv n st :
+  alookup n (m_map lv) = Some st -> exists k, pick lv n = Some (st, k).
+Proof. intro H. unfold pick. rewrite H. eexists. reflexivity. Qed.
+Print Assumptions method_mapping_overrides.
+
+Theorem service_mapping_overrides_api lv n st :
+  alookup n (m_map lv) = None -> alookup n (s_map lv) = Some st -> exists k, pick lv n = Some (st, k).
+Proof. intros H1 H2. unfold pick. rewrite H1, H2. eexists. reflexivity. Qed.
+Print Assumptions service_mapping_overrides_api.
+
+Theorem api_mapping_is_last lv n st :
+  alookup n (m_map lv) = None -> alookup n (s_map lv) = None -> alookup n (a_map lv) = Some st ->
+  exists k, pick lv n = Some (st, k).
+Proof. intros H1 H2 H3. unfold pick. rewrite H1, H2, H3. eexists. reflexivity. Qed.
+Print Assumptions api_mapping_is_last.
+
+(* the row carries the error type of the method's own error when every level that
+   declares the name gives it the same type ... *)
+Theorem inherited_row_type_partial lv n st k :
+  levels_type_consistent lv n -> In (n, st, k) (effective_error_table lv) -> method_kind lv n = Some k.
+Proof. exact (row_kind_is_method_kind lv n st k). Qed.
+Print Assumptions inherited_row_type_partial.
+
+(* ... and not otherwise: the API maps "e" (default type), the method redeclares "e" with
+   a custom type: the row, hence the generated encoder, expects a ServiceError while the
+   method returns the custom type (then exactly_one_write_header_refuted applies) *)
+Theorem inherited_row_type_refuted :
+  exists lv n st k, In (n, st, k) (effective_error_table lv) /\ method_kind lv n <> Some k.
+Proof.
+  exists (mklevels [("e", KCustom "LatM")] [] [] [] [("e", KDefault)] [("e", 412)]), "e", 412, KDefault.
+  split; [left; reflexivity|discriminate].
+Qed.
+Print Assumptions inherited_row_type_refuted.
 
 (* Request decoding failures carry the standard names and are client errors: 400,
    except 415 for an unsupported media type; fault flag not set; one WriteHeader. *)
@@ -252,6 +316,13 @@ Example roundtrip_three_on_one_status :
     ws_status (run_writer go_hdr_wire evs) = 404 /\
     decode_error ex_te ex_tbl (run_writer go_hdr_wire evs) = CService (mkcore "gone" "id7" "it is gone" false true true).
 Proof. eexists. split; [reflexivity|]. split; vm_compute; reflexivity. Qed.
+
+Example joined_declared_is_dispatched :
+  let g := EService (mkcore "gone" "id7" "it is gone" false true true) in
+  let t := EWrap "while doing x" (EJoin "\n" [EPlain "unrelated"; EJoin ": " [EPlain "context"; g]; EService (mkcore "other" "" "" false false false)]) in
+  encode_error ex_te ex_tbl t = encode_error ex_te ex_tbl (EJoin "\n" [EPlain "u"; g]) /\
+  exists evs, encode_error ex_te ex_tbl t = Some evs /\ ws_status (run_writer go_hdr_wire evs) = 404.
+Proof. split; [reflexivity|]. eexists. split; [reflexivity|vm_compute; reflexivity]. Qed.
 
 Example roundtrip_custom_with_header :
   let e := ECustom "Conflict" [("name", "n"); ("code", "7"); ("detail", "d e")] in
